@@ -1,9 +1,14 @@
 //! Engine A `srvmc`: explicit-state exploration of the real actix-server (DESIGN §4).
+mod e2e;
 mod explore;
 mod props;
 mod sys;
 
 fn main() {
+    let argv: Vec<String> = std::env::args().collect();
+    if argv.len() == 3 && argv[1] == "--child-signal" {
+        e2e::child_main(&argv[2]);
+    }
     let args = mcutil::Args::parse();
     mcutil::silence_panics();
     std::process::exit(props::run(&args));
